@@ -58,7 +58,7 @@ fn main() {
                 &mut rng,
                 &me,
                 &routers,
-                120,
+                if scale == 1 { 50 } else { 120 },
                 if h % 2 == 0 { tabledrv::Focus::Table } else { tabledrv::Focus::Status },
             );
             let tseed = rng.gen();
